@@ -383,17 +383,44 @@ def py_value(v, t):
     return int(v)
 
 
+class Hang(BaseException):
+    """The implementation did not finish within the watchdog time (a non-terminating loop).
+    Not an Exception: the library's own `except Exception` must not swallow the watchdog."""
+
+
+class time_limit:
+    def __init__(self, seconds: float):
+        self.seconds = seconds
+
+    def __enter__(self):
+        import signal
+
+        def handler(signum, frame):
+            raise Hang(f"no result after {self.seconds}s")
+
+        self.old = signal.signal(signal.SIGALRM, handler)
+        signal.setitimer(signal.ITIMER_REAL, self.seconds, 0.5)
+
+    def __exit__(self, *a):
+        import signal
+
+        signal.setitimer(signal.ITIMER_REAL, 0)
+        signal.signal(signal.SIGALRM, self.old)
+        return False
+
+
 def parse(cs, tname: str, data: bytes, pos: int = 0):
     """Run the implementation's reader from a BytesIO at pos; returns ('ok', value, newpos) or ('err', exc)."""
     T = cs.resolve(tname)
     st = io.BytesIO(data)
     st.seek(pos)
     try:
-        v = T._read(st)
+        with time_limit(1.5):
+            v = T._read(st)
         return ("ok", v, st.tell())
     except RecursionError:
         raise
-    except Exception as e:  # noqa: BLE001
+    except (Exception, Hang) as e:  # noqa: BLE001
         return ("err", e)
 
 
